@@ -279,6 +279,46 @@ def check_windows(res, N, bl, strand, frames):
                                 res.deviation("scan_codon_locations", c, [list(x) for x in got], [list(x) for x in inside], sig="scan-expand-bounds")
 
 
+def check_windows_chunk(res, N, bl, strand, frames, stride=1):
+    """the window restriction on a CDS that lives on a sequence CHUNK: chromosome windows are chromosome coordinates all
+    the same; the chromosome-coordinate scan answers as on the whole chromosome, the chunk-relative scan gives the codons
+    fully inside window AND chunk, shifted by the chunk start"""
+    genome = (GENOMES["startstop"] * 2)[:N]
+    allc = model_codons(bl, strand, frames)
+    lo, hi = bl[0][0], bl[-1][1]
+    chunks = [(0, N)]
+    if lo >= 1:
+        chunks.append((1, N))
+    if hi - lo >= 4:
+        chunks += [(lo + 1, hi), (lo, hi - 1)]
+    cds_pos = {p for s_, e_ in bl for p in range(s_, e_)}
+    for ca, cb in chunks:
+        if not any(ca <= p < cb for p in cds_pos):
+            continue  # (a CDS without a base in its chunk is C07's subject)
+        o_ = lib.outcome(lambda: lib.mk_cds(bl, strand, frames, lib.chunk_parent(genome, ca, cb)))
+        if o_[0] != "ok":
+            continue
+        cds = o_[1]
+        res.state(("cdswc", bl, strand, tuple(frames), ca, cb))
+        case = dict(kind="window", N=N, blocks=[list(b) for b in bl], strand=strand, frames=list(frames), chunk=[ca, cb])
+        for a in range(0, N):
+            for b in range(a + 1, N + 1):
+                if (a + b + ca + len(bl)) % stride:
+                    continue  # (a fraction of the windows per chunk; every window is met on some chunk of some CDS)
+                trim5 = max((max(a, ca) - lo) if strand == "+" else (hi - min(b, cb)), 0)
+                o = lib.outcome(lambda: list(cds.scan_chunk_relative_codon_locations(a, b, False)))
+                res.trans()
+                res.nontriv(("winc", bl, strand, tuple(frames), ca, cb, a, b))
+                inside = [tuple(p - ca for p in c) for c in F.codons_in_window(allc, max(a, ca), min(b, cb))]
+                c = dict(op="scan_chunk_codon_locations", a=a, b=b, expand=False, trim5=trim5, **case)
+                cmp_codons(res, "scan_codon_locations", c, o, inside, strand)
+                if ca > 0:
+                    o = lib.outcome(lambda: list(cds.scan_chromosome_codon_locations(a, b, False)))
+                    res.trans()
+                    c = dict(op="scan_chromosome_codon_locations", a=a, b=b, expand=False, trim5=max((a - lo) if strand == "+" else (hi - b), 0), **case)
+                    cmp_codons(res, "scan_codon_locations", c, o, F.codons_in_window(allc, a, b), strand)
+
+
 def check_frames(res, N, bl, strand, f0):
     L = lib.mk_loc(bl, strand)
     o = lib.outcome(CDSInterval.construct_frames_from_location, L, CDSFrame(f0))
@@ -400,6 +440,7 @@ def run_shard(shard):
                     if idx % NSH != shard["i"]:
                         continue
                     check_windows(res, N, bl, strand, fv)
+                    check_windows_chunk(res, N, bl, strand, fv, stride=5 if tier == "quick" else 1)
         res.sample({"window": "every (a,b) x expand on every CDS of the window world"})
     elif part == "frames":
         idx = 0
